@@ -61,7 +61,7 @@ def make_bus(sizes, axis, li, backing):
 
 def scope(tier):
     if tier == 'quick':
-        return dict(sizes=[(2,), (1, 2), (2, 1), (2, 2, 1)], backings=('memory', 'store-mp1'))
+        return dict(sizes=[(2,), (1, 2), (3, 1), (2, 3, 1)], backings=('memory', 'store-mp1'))
     return dict(sizes=[(1,), (3,), (1, 2), (2, 1), (3, 1), (2, 2), (2, 2, 1), (1, 3, 2), (1, 1, 1)], backings=('memory', 'store', 'store-mp1'))
 
 
